@@ -1,7 +1,9 @@
 (* C16 -- Decode options only add information; unknown-item counts are exact. *)
 From Coq Require Import NArith ZArith List Bool.
 From Coq Require Import Sorting.Sorted Sorting.Permutation.
-From FitV Require Import Model.Values Model.Route Model.Decode Proofs.DecodeLemmas.
+From FitV Require Import Model.Values Model.IO Model.Header Model.Route Model.Components Model.Decode Proofs.DecodeLemmas
+  Spec.FitSyntax Spec.RouteSpec Proofs.StreamDenoteDefs Proofs.StreamDenoteLift Proofs.StreamDenoteMain Proofs.StreamDenoteCor
+  Proofs.StreamDenoteOpts.
 Import ListNotations.
 Local Open Scope N_scope.
 
@@ -25,9 +27,54 @@ Proof. exact unknown_fields_perm. Qed.
 Theorem C16_bump1_count : forall k k' l, count_of1 k' (bump1 k l) = if k' =? k then count_of1 k' l + 1 else count_of1 k' l.
 Proof. exact bump1_count. Qed.
 
-(* PARTIAL: opts_invisible (the decoded messages, the error and the bytes consumed do not depend on the options,
-   for every stream and reader) and the exactness of the counts against the record list are covered by the
-   harness: every stream is decoded under all 8 option sets and compared, and the counts are compared with the
-   extracted reference semantics. Proved here: the counters are write-only bookkeeping at finalization. *)
+(* ---------------------------------------------------------------------------------------------------------
+   opts_invisible, for EVERY input (arbitrary bytes, any reader oracle, success or failure): the two runs are
+   related by a simulation "equal except ds_unkf / ds_unkm" (Proofs/StreamDenoteOpts.v: psim, sound for both the
+   abstract and the buffered interpreter).  [project] keeps error, header, File without the two lists, the reader
+   after the call (rd_pos = bytes consumed), accumulators and quirk tags. *)
+Theorem C16_opts_invisible : forall o md g rd fuel,
+  project (decode o md g rd fuel) = project (decode no_opts md g rd fuel).
+Proof. exact opts_invisible. Qed.
+Print Assumptions C16_opts_invisible.
+Theorem C16_opts_invisible_any_two : forall o o' md g rd fuel,
+  project (decode o md g rd fuel) = project (decode o' md g rd fuel).
+Proof. exact opts_invisible2. Qed.
+Theorem C16_opts_invisible_DecodeChained : forall o g rd fuel,
+  project_chain (entry_DecodeChained o g rd fuel) = project_chain (entry_DecodeChained no_opts g rd fuel).
+Proof. exact opts_invisible_DecodeChained. Qed.
+Print Assumptions C16_opts_invisible_DecodeChained.
+(* the record loop alone, on the abstract interpreter, from any pair of related states *)
+Theorem C16_records_opts_invisible : forall o fuel x s s', eqv s s' ->
+  rsim (run_a (decode_file_data o fuel) x s) (run_a (decode_file_data no_opts fuel) x s').
+Proof. exact records_opts_invisible_abstract. Qed.
+
+(* unknown_counts_exact (success case): on every stream in the domain of C02_decode_denote the two lists the File
+   reports are the reference counts (records of each unknown message; occurrences of each unlisted field of known
+   messages), sorted *)
+Theorem C16_unknown_counts_exact : forall o h g rs ss1 f2 g1 tl t,
+  starts_with_file_id rs = true -> stream_wf rs = true -> no_time_quirk rs = true -> denote rs = Some ss1 ->
+  start_file h g (hd dummy_msg (ss_msgs ss1)) = Some (f2, g1) ->
+  let L := List.length (ser_records rs) in
+  exists s1,
+    run_a (data_prog o false (S L)) (mk_ast (ser_records rs ++ tl) t 0 L) (init_dstate (new_file h) g) =
+      ROk tt (mk_ast tl t L L) s1 /\
+    (o_unkm o = true -> f_unkm (finalize_unknown o s1) = Some (sorted_unkm ss1)) /\
+    (o_unkf o = true -> f_unkf (finalize_unknown o s1) = Some (sorted_unkf ss1)).
+Proof. exact unknown_counts_exact. Qed.
+Print Assumptions C16_unknown_counts_exact.
+(* (the entry-point form, through any reader: the two conjuncts on f_unkm / f_unkf of C02_decode_denote) *)
+
+(* the options do change the counters: the simulation relation is not vacuous *)
+Example C16_counters_differ_example :
+  match run_a (decode_file_data (mk_dopts false true true) 3)
+              (mk_ast [0x40; 0; 0; 0x34; 0xFF; 1; 7; 1; 2; 0; 9] TEOF 0 11) (init_dstate (new_file zero_header) g_init),
+        run_a (decode_file_data no_opts 3)
+              (mk_ast [0x40; 0; 0; 0x34; 0xFF; 1; 7; 1; 2; 0; 9] TEOF 0 11) (init_dstate (new_file zero_header) g_init) with
+  | ROk _ x s, ROk _ x' s' => ds_unkm s = [(0xFF34, 1)] /\ ds_unkm s' = [] /\ a_n x = 11%nat /\ a_n x' = 11%nat
+  | _, _ => False
+  end.
+Proof. vm_compute. repeat split; reflexivity. Qed.
+
+(* PARTIAL: counts_on_failure (bounds on the lists when decoding fails part-way) is covered by the harness only. *)
 Example C16_example : sort_unkm [(300, 2); (22, 1)] = [(22, 1); (300, 2)].
 Proof. reflexivity. Qed.
